@@ -722,6 +722,9 @@ def structural_hash(obj: object) -> bytes:
     hasher = hashlib.blake2b(digest_size=20)
     if isinstance(obj, (int, str, float, PurePath)):
         hasher.update(bytes("P" + str(obj), "utf-8"))
+    elif isinstance(obj, (datetime.date, datetime.time)):
+        # TOML date/time values, e.g. inside the free-form [data] table of snooty.toml
+        hasher.update(bytes("T" + obj.isoformat(), "utf-8"))
     elif dataclasses.is_dataclass(obj):
         fields = dataclasses.fields(obj)
         hasher.update(bytes(f"O{len(fields)}\x20", "utf-8"))
